@@ -379,7 +379,7 @@ INDEX_TRIAGE: dict[tuple[str, str], str] = {
 
 
 def _len_conditions(x: str, k: int) -> list[str]:
-    out = [f"len({x}) == {m}" for m in range(max(k + 1, 1), 5)] + [f"{k} < len({x})", f"len({x}) > {k}"] + [f"len({x}) >= {m}" for m in range(k + 1, 5)]
+    out = [f"len({x}) == {m}" for m in range(max(k + 1, 1), 5)] + [c for m in range(k, 4) for c in (f"{m} < len({x})", f"len({x}) > {m}")] + [f"len({x}) >= {m}" for m in range(k + 1, 5)]
     if k == 0:
         out += [x, f"len({x}) != 0", f"0 < len({x})", f"len({x}) >= 1", f"bool({x})"]
     return out
@@ -716,6 +716,15 @@ def r_loops(ck: Checker) -> None:
                 rem = [c for c in attr_calls(func, "remove") if any(x is c for x in ast.walk(loop))]
                 if not rem:
                     shape = None
+            if shape is None:
+                # whatever the exit test looks like: every iteration that leads to another one has removed an element
+                # from a list (restart-after-removal: the list is finite)
+                rem_stmts = {id(enclosing_stmt(func, c)): "removed" for c in find_nodes(loop, lambda x: isinstance(x, ast.Call) and isinstance(x.func, ast.Attribute) and x.func.attr in ("remove", "pop") and not x.keywords)}
+                if rem_stmts:
+                    itr_ = ck.interp(func, None, mark_stmts=rem_stmts, clear_marks_at={id(loop): "removed"})
+                    back_ = itr_.loop_back.get(id(loop), [])
+                    if back_ and all("removed" in st.marks for st in back_):
+                        shape = "variant: every iteration that is followed by another one has removed an element from a finite list"
             if shape is None and re.search(r"len\((\w+)\) (!=|>) (\w+)", test):
                 shape = "monotone: a set only grows, exit when its size is unchanged"
             if shape is None and re.fullmatch(r"'\w+' in \w+", test) and ".remove(" in body_txt:
